@@ -1,6 +1,379 @@
 // Node-level scenarios on GenericCloud with mock socket / device / time.
+//
+// One line = one scenario: nodes, a harness-owned network (every datagram ever sent is kept and can be
+// delivered, duplicated, mutated, re-addressed or dropped), a clock, interface frames.
+use super::conn::{key_seed, parse_algos};
+use super::pure::{mk_addr, table_dump};
 use super::{hex, num, unhex};
+use crate::cloud::GenericCloud;
+use crate::config::Config;
+use crate::crypto::verif as hcm;
+use crate::device::{MockDevice, Type};
+use crate::net::MockSocket;
+use crate::payload::{Frame, Packet};
+use crate::types::Mode;
+use crate::util::{MockTimeSource, TimeSource};
+use std::collections::{HashMap, VecDeque};
+use std::net::SocketAddr;
 
-pub fn run(_op: &str, _a: &[&str]) -> Option<String> {
-    None
+type TapNode = GenericCloud<MockDevice, Frame, MockSocket, MockTimeSource>;
+type TunNode = GenericCloud<MockDevice, Packet, MockSocket, MockTimeSource>;
+
+enum AnyNode {
+    Tap(TapNode),
+    Tun(TunNode),
+}
+
+macro_rules! with_node {
+    ($n:expr, $x:ident => $e:expr) => {
+        match $n {
+            AnyNode::Tap($x) => $e,
+            AnyNode::Tun($x) => $e,
+        }
+    };
+}
+
+fn addr_of(i: u32) -> SocketAddr {
+    format!("[::]:{}", i).parse().unwrap()
+}
+
+fn claim_str(spec: &str) -> String {
+    let (b, p) = spec.split_once('/').unwrap();
+    let bytes = unhex(b);
+    let a = mk_addr(&bytes);
+    format!("{}/{}", a, p)
+}
+
+fn kind_of(d: &[u8]) -> String {
+    if d.is_empty() {
+        return "Z".into();
+    }
+    if d[0] == 0xff {
+        if d.len() >= 20 && d[9] == 1 {
+            return format!("I{}.{}", d[12], hex(&d[16..20]));
+        }
+        return "I?".into();
+    }
+    format!("D{}", d.len())
+}
+
+struct World {
+    nodes: HashMap<u32, AnyNode>,
+    ids: HashMap<[u8; 16], u32>,
+    sent: Vec<(u32, u32, Vec<u8>)>, // (src node, dst port, bytes)
+    queue: VecDeque<usize>,
+}
+
+impl World {
+    fn collect(&mut self, i: u32) -> String {
+        let node = self.nodes.get_mut(&i).unwrap();
+        let mut out: Vec<(SocketAddr, Vec<u8>)> = vec![];
+        with_node!(node, n => {
+            while let Some(x) = n.v_socket().pop_outbound() {
+                out.push(x);
+            }
+        });
+        out.sort_by_key(|x| x.0.port()); // stable: keeps emission order per destination
+        let mut toks = vec![];
+        for (dst, data) in out {
+            toks.push(format!("{}:{}", dst.port(), kind_of(&data)));
+            self.queue.push_back(self.sent.len());
+            self.sent.push((i, dst.port() as u32, data));
+        }
+        if toks.is_empty() {
+            "-".into()
+        } else {
+            toks.join(",")
+        }
+    }
+
+    fn deliver(&mut self, dst: u32, src: u32, data: Vec<u8>) -> String {
+        if !self.nodes.contains_key(&dst) {
+            return "nodg".into();
+        }
+        let node = self.nodes.get_mut(&dst).unwrap();
+        let accepted = with_node!(node, n => {
+            if n.v_socket().put_inbound(addr_of(src), data) {
+                n.v_socket_event();
+                true
+            } else {
+                false
+            }
+        });
+        if !accepted {
+            return "nat".into();
+        }
+        self.collect(dst)
+    }
+}
+
+fn node_scenario(a: &[&str]) -> String {
+    crate::crypto::verif_init::clear_salts();
+    MockTimeSource::set_time(1);
+    MockSocket::set_nat(false);
+    let mut w = World { nodes: HashMap::new(), ids: HashMap::new(), sent: vec![], queue: VecDeque::new() };
+    let mut out: Vec<String> = vec![];
+    for tok in a {
+        let p: Vec<&str> = tok.split('.').collect();
+        let r = std::panic::catch_unwind(std::panic::AssertUnwindSafe(|| -> String {
+            match p[0] {
+                // N.<i>.<mode>.<peer_timeout>.<keepalive|->.<switch_timeout>.<claims|->.<key>.<trusted>.<algos>
+                "N" => {
+                    let i: u32 = num(p[1]);
+                    let mut c = Config::default();
+                    let (dt, mode) = match p[2] {
+                        "tap-switch" => (Type::Tap, Mode::Switch),
+                        "tap-hub" => (Type::Tap, Mode::Hub),
+                        "tap-normal" => (Type::Tap, Mode::Normal),
+                        "tun-router" => (Type::Tun, Mode::Router),
+                        "tun-normal" => (Type::Tun, Mode::Normal),
+                        "tun-switch" => (Type::Tun, Mode::Switch),
+                        "tun-hub" => (Type::Tun, Mode::Hub),
+                        "tap-router" => (Type::Tap, Mode::Router),
+                        _ => panic!("mode"),
+                    };
+                    c.device_type = dt;
+                    c.mode = mode;
+                    c.peer_timeout = num(p[3]);
+                    c.keepalive = if p[4] == "-" { None } else { Some(num(p[4])) };
+                    c.switch_timeout = num(p[5]);
+                    c.claims = if p[6] == "-" { vec![] } else { p[6].split(';').map(claim_str).collect() };
+                    c.auto_claim = false;
+                    c.port_forwarding = false;
+                    c.listen = format!("[::]:{}", i);
+                    c.crypto.password = Some("x".into());
+                    c.crypto.algorithms = vec!["plain".into()];
+                    let key: u8 = num(p[7]);
+                    let trusted: Vec<Vec<u8>> =
+                        if p[8] == "-" { vec![] } else { p[8].split('+').map(|k| hcm::seed_public_key(&key_seed(num(k)))).collect() };
+                    let (plain, speeds) = parse_algos(p[9]);
+                    MockSocket::set_nat(p.len() > 10 && p[10] == "nat");
+                    let node = match dt {
+                        Type::Tap => {
+                            let mut n = TapNode::new(&c, MockSocket::new(addr_of(i)), MockDevice::new(), None, None);
+                            let id = n.v_node_id();
+                            n.v_replace_crypto(hcm::crypto_with(id, &key_seed(key), &trusted, &speeds, plain));
+                            w.ids.insert(id, i);
+                            AnyNode::Tap(n)
+                        }
+                        Type::Tun => {
+                            let mut n = TunNode::new(&c, MockSocket::new(addr_of(i)), MockDevice::new(), None, None);
+                            let id = n.v_node_id();
+                            n.v_replace_crypto(hcm::crypto_with(id, &key_seed(key), &trusted, &speeds, plain));
+                            w.ids.insert(id, i);
+                            AnyNode::Tun(n)
+                        }
+                    };
+                    w.nodes.insert(i, node);
+                    "-".into()
+                }
+                "T" => {
+                    MockTimeSource::set_time(num(p[1]));
+                    "-".into()
+                }
+                "C" => {
+                    let i: u32 = num(p[1]);
+                    let node = w.nodes.get_mut(&i).unwrap();
+                    with_node!(node, n => { n.connect(addr_of(num(p[2]))).ok(); });
+                    w.collect(i)
+                }
+                "R" => {
+                    let i: u32 = num(p[1]);
+                    let node = w.nodes.get_mut(&i).unwrap();
+                    with_node!(node, n => n.v_add_reconnect(vec![addr_of(num(p[2]))]));
+                    "-".into()
+                }
+                "H" => {
+                    let i: u32 = num(p[1]);
+                    let node = w.nodes.get_mut(&i).unwrap();
+                    let ok = with_node!(node, n => n.v_housekeep());
+                    let s = w.collect(i);
+                    if ok {
+                        s
+                    } else {
+                        format!("hkerr,{}", s)
+                    }
+                }
+                "D" => {
+                    let k: usize = num(p[1]);
+                    if k >= w.sent.len() {
+                        return "nodg".into();
+                    }
+                    w.queue.retain(|x| *x != k);
+                    let (src, dst, data) = w.sent[k].clone();
+                    w.deliver(dst, src, data)
+                }
+                "J" | "F" | "U" => {
+                    let k: usize = num(p[1]);
+                    if k >= w.sent.len() {
+                        return "nodg".into();
+                    }
+                    let mut data = w.sent[k].2.clone();
+                    if p[0] == "F" {
+                        let pos: usize = num(p[4]);
+                        if pos >= data.len() {
+                            return "nodg".into();
+                        }
+                        data[pos] ^= 1 << num::<u32>(p[5]);
+                    }
+                    if p[0] == "U" {
+                        data.truncate(num(p[4]));
+                    }
+                    w.deliver(num(p[2]), num(p[3]), data)
+                }
+                "W" => w.deliver(num(p[1]), num(p[2]), unhex(p[3])),
+                "L" => {
+                    // L.<dst>.<src>.<kind i|d>.<n>: n-th last datagram that src sent to dst of that kind
+                    let dst: u32 = num(p[1]);
+                    let src: u32 = num(p[2]);
+                    let want_init = p[3] == "i";
+                    let n: usize = num(p[4]);
+                    let idx: Vec<usize> = (0..w.sent.len())
+                        .rev()
+                        .filter(|&i| w.sent[i].0 == src && w.sent[i].1 == dst && (!w.sent[i].2.is_empty() && (w.sent[i].2[0] == 0xff) == want_init))
+                        .collect();
+                    if n >= idx.len() {
+                        return "nodg".into();
+                    }
+                    let data = w.sent[idx[n]].2.clone();
+                    w.deliver(dst, src, data)
+                }
+                "G" => {
+                    let k: usize = num(p[1]);
+                    if k >= w.sent.len() {
+                        return "nodg".into();
+                    }
+                    format!("g{}", hex(&w.sent[k].2))
+                }
+                "B" => {
+                    // B.<node>.<to>.<from>: loop back to <node> the latest handshake datagram it sent to address <to>, as if from <from>
+                    let me: u32 = num(p[1]);
+                    let to: u32 = num(p[2]);
+                    let from: u32 = num(p[3]);
+                    let idx = (0..w.sent.len()).rev().find(|&i| w.sent[i].0 == me && w.sent[i].1 == to && !w.sent[i].2.is_empty() && w.sent[i].2[0] == 0xff);
+                    match idx {
+                        None => "nodg".into(),
+                        Some(i) => {
+                            let data = w.sent[i].2.clone();
+                            w.deliver(me, from, data)
+                        }
+                    }
+                }
+                "X" => {
+                    // drop datagram k from the delivery queue
+                    let k: usize = num(p[1]);
+                    w.queue.retain(|x| *x != k);
+                    "-".into()
+                }
+                "A" => {
+                    // deliver everything in flight, FIFO, until quiet (bounded)
+                    let mut n = 0;
+                    let mut log = vec![];
+                    while let Some(k) = w.queue.pop_front() {
+                        let (src, dst, data) = w.sent[k].clone();
+                        if w.nodes.contains_key(&dst) {
+                            let r = w.deliver(dst, src, data);
+                            log.push(format!("n{}>{}", dst, r));
+                        } else {
+                            log.push(format!("n{}>-", dst));
+                        }
+                        n += 1;
+                        if n > 400 {
+                            break;
+                        }
+                    }
+                    format!("a{}[{}]", n, log.join("|"))
+                }
+                "P" => {
+                    let i: u32 = num(p[1]);
+                    let node = w.nodes.get_mut(&i).unwrap();
+                    with_node!(node, n => {
+                        n.v_device().put_inbound(unhex(p[2]));
+                        n.v_device_event();
+                    });
+                    w.collect(i)
+                }
+                "O" => {
+                    let i: u32 = num(p[1]);
+                    let node = w.nodes.get_mut(&i).unwrap();
+                    let mut v = vec![];
+                    with_node!(node, n => {
+                        while let Some(f) = n.v_device().pop_outbound() {
+                            v.push(hex(&f));
+                        }
+                    });
+                    if v.is_empty() {
+                        "w-".into()
+                    } else {
+                        format!("w{}", v.join(","))
+                    }
+                }
+                "S" => {
+                    let i: u32 = num(p[1]);
+                    let node = w.nodes.get(&i).unwrap();
+                    with_node!(node, n => {
+                        let peers: Vec<String> = n
+                            .v_peers()
+                            .iter()
+                            .map(|d| {
+                                let mut ad: Vec<u16> = d.addrs.iter().map(|a| a.port()).collect();
+                                ad.sort();
+                                format!(
+                                    "{}:{}:{}:{}:{}:{}:{}",
+                                    d.addr.port(),
+                                    w.ids.get(&d.node_id).map(|x| x.to_string()).unwrap_or("?".into()),
+                                    d.alg,
+                                    d.timeout,
+                                    d.peer_timeout,
+                                    d.has_init as u8,
+                                    ad.iter().map(|x| x.to_string()).collect::<Vec<_>>().join("+")
+                                )
+                            })
+                            .collect();
+                        let pend: Vec<String> = n
+                            .v_pending()
+                            .iter()
+                            .map(|(a, d)| format!("{}:{}:{}", a.port(), d.init_stage.map(|s| s.to_string()).unwrap_or("-".into()), d.init_retries))
+                            .collect();
+                        let own: Vec<String> = n.v_own().iter().map(|a| a.port().to_string()).collect();
+                        let (np, no) = n.v_sched();
+                        let (dr, inv) = n.v_counters();
+                        format!(
+                            "peers=[{}];pend=[{}];own=[{}];{};np={};no={};drop={};inv={}",
+                            peers.join(","),
+                            pend.join(","),
+                            own.join(","),
+                            table_dump(n.v_table()),
+                            np,
+                            no,
+                            dr,
+                            inv
+                        )
+                    })
+                }
+                _ => panic!("bad node op"),
+            }
+        }));
+        out.push(match r {
+            Ok(s) => s,
+            Err(e) => {
+                let msg = if let Some(s) = e.downcast_ref::<&str>() {
+                    s.to_string()
+                } else if let Some(s) = e.downcast_ref::<String>() {
+                    s.clone()
+                } else {
+                    "?".into()
+                };
+                format!("panic:{}", msg.chars().map(|c| if c.is_whitespace() || c == ',' { '_' } else { c }).take(60).collect::<String>())
+            }
+        });
+    }
+    out.join(" ")
+}
+
+pub fn run(op: &str, a: &[&str]) -> Option<String> {
+    Some(match op {
+        "node" => node_scenario(a),
+        _ => return None,
+    })
 }
